@@ -64,6 +64,7 @@ Definition internal_actions_node (n : nat) (nw : nat) : list action :=
   flat_map (fun w => [SendW n w; Deq n w; SeeClosed n w; LastOut n w; OnceEnter n w;
                       ShutdownReturn n w; CloseKids n w; OnceSkip n w]) (seq 0 nw).
 
+(* the source actions (SrcEmit, SrcReturnNil, SrcReturnErr, SrcRestart, SrcSetupFail) are external: never taken here *)
 Definition candidates (nt : net) (s : state) : list action :=
   [MainSend; MainSeeClosed; MainCloseRoots; MainWgDone]
   ++ map SendC (seq 0 (length (cbs s)))
@@ -128,7 +129,8 @@ Definition snap_node (x : nstate) : tree :=
 Definition main_code (s : state) : Z :=
   match mn s with MDone => if timedout s then 2 else 1 | _ => 0 end%Z.
 Definition src_code (s : state) : tree :=
-  match src s with SRunning k => T [L 0; ofNat k] | SSleeping k => T [L 1; ofNat k] | SClosed => T [L 2; L 0] end%Z.
+  match src s with SRunning k => T [L 0; ofNat k] | SSleeping k => T [L 1; ofNat k] | SClosed => T [L 2; L 0]
+  | SDead => T [L 3; L 0] end%Z.
 Definition snapshot (s : state) : tree :=
   T [ ofList snap_node (nodes s); L (main_code s); src_code s ].
 
